@@ -5,9 +5,14 @@ MODS = ['parso/normalizer.py', 'parso/python/errors.py', 'parso/python/prefix.py
 
 
 def check(ctx, rep):
+    from ..rules import shape
+    _n = shape.gr_10(ctx, rep, ['parso/python/errors.py'])
+    rep.minimum('GR-10', 4)
     dar.da_rule(ctx, rep, MODS)
     dar.sig_rule(ctx, rep, MODS)
     dar.issue_kind_rule(ctx, rep, ['parso/normalizer.py', 'parso/python/errors.py'])
+    from ..rules import rxr
+    rxr.rx_10(ctx, rep, ['parso/python/errors.py', 'parso/python/prefix.py', 'parso/normalizer.py'])
     normr.norm_1_2(ctx, rep)
     normr.norm_3(ctx, rep)
     normr.norm_4_5(ctx, rep)
